@@ -659,51 +659,55 @@ pub fn check_main(profiles: &[Profile], id: &str, tier: Tier) -> i32 {
             violations_total += 1;
             continue;
         }
+        // Everything that decides whether a violation is reported happens in *fresh child
+        // processes* (the parent has validated other requests by now, and a library that carries
+        // state between validations would make its in-process re-runs meaningless).
+        let uncontrolled = UNCONTROLLED.contains(&clause.as_str());
+        let alone = uncontrolled || hist_child(p, tier, seed, &[index], &property, &clause).is_some();
+        let history_path = |exit_code: &mut i32, violations_total: &mut i128| -> bool {
+            match reproduce_with_history(p, tier, seed, nw, index, &property, &clause) {
+                Some((hist, d)) => {
+                    let path = format!("{}/replays/{}-{}-{}-history.json", verif_dir(), property, seed, index);
+                    let _ = std::fs::create_dir_all(format!("{}/replays", verif_dir()));
+                    let j = J::obj()
+                        .set("property", J::s(&property))
+                        .set("profile", J::s(p.id))
+                        .set("clause", J::s(&clause))
+                        .set("tier", J::s(tier_name(tier)))
+                        .set("seed", J::i(seed as i128))
+                        .set("run_index", J::i(index as i128))
+                        .set("history", J::Arr(hist.iter().map(|x| J::i(*x as i128)).collect()))
+                        .set("violation", J::s(&d))
+                        .set("note", J::s("the run alone does not show this; it shows when the listed runs are executed one after the other in one fresh process: the outcome depends on earlier validations in the same process"));
+                    let _ = std::fs::write(&path, j.render());
+                    println!("VIOLATION property={} replay={}", property, path);
+                    println!("  clause {} (seed {}, run {} after runs {:?} in the same process — state is carried between validations): {}", clause, seed, index, &hist[..hist.len() - 1], crate::libi::truncate(&d, 1500));
+                    *exit_code = (*exit_code).max(1);
+                    *violations_total += 1;
+                    true
+                }
+                None => false,
+            }
+        };
+        if !alone {
+            if !history_path(&mut exit_code, &mut violations_total) {
+                println!("HARNESS-ERROR: run {} did not reproduce {} / {} in a fresh process, neither alone nor after its worker's history (nondeterminism)", index, property, clause);
+                exit_code = exit_code.max(2);
+            }
+            reported.insert((property, clause));
+            continue;
+        }
         let (out0, tape0) = run_seed(p, tier, seed, index);
         println!("note: minimising run {} ({} choices)", index, tape0.len());
         let v0 = match out0.violations.iter().find(|v| v.property == property && v.clause == clause) {
             Some(v) => v.clone(),
-            None if UNCONTROLLED.contains(&clause.as_str()) => {
-                // observed by a worker; not hit again in the parent's single re-run
-                Violation {
-                    property: "C18",
-                    clause: UNCONTROLLED.iter().find(|c| **c == clause.as_str()).copied().unwrap_or("same-outcome-under-real-parallelism"),
-                    detail: detail.clone(),
-                }
-            }
-            None => {
-                // not reproducible in isolation: does it depend on what the worker process had
-                // validated before (state carried between validations)?
-                match reproduce_with_history(p, tier, seed, nw, index, &property, &clause) {
-                    Some((hist, d)) => {
-                        let path = format!("{}/replays/{}-{}-{}-history.json", verif_dir(), property, seed, index);
-                        let _ = std::fs::create_dir_all(format!("{}/replays", verif_dir()));
-                        let j = J::obj()
-                            .set("property", J::s(&property))
-                            .set("profile", J::s(p.id))
-                            .set("clause", J::s(&clause))
-                            .set("tier", J::s(tier_name(tier)))
-                            .set("seed", J::i(seed as i128))
-                            .set("run_index", J::i(index as i128))
-                            .set("history", J::Arr(hist.iter().map(|x| J::i(*x as i128)).collect()))
-                            .set("violation", J::s(&d))
-                            .set("note", J::s("the run alone does not show this; it shows when the listed runs are executed one after the other in one fresh process: the outcome depends on earlier validations in the same process"));
-                        let _ = std::fs::write(&path, j.render());
-                        println!("VIOLATION property={} replay={}", property, path);
-                        println!("  clause {} (seed {}, run {} after runs {:?} in the same process — state is carried between validations): {}", clause, seed, index, &hist[..hist.len() - 1], crate::libi::truncate(&d, 1500));
-                        exit_code = exit_code.max(1);
-                        violations_total += 1;
-                        reported.insert((property, clause));
-                    }
-                    None => {
-                        println!("HARNESS-ERROR: run {} did not reproduce {} / {} in the parent, neither alone nor after its worker's history (nondeterminism)", index, property, clause);
-                        exit_code = exit_code.max(2);
-                    }
-                }
-                continue;
-            }
+            None => Violation {
+                property: profiles_static(&property),
+                clause: clause_static(&clause),
+                detail: detail.clone(),
+            },
         };
-        if UNCONTROLLED.contains(&clause.as_str()) {
+        if uncontrolled {
             // a race that was hit: no minimisation (every candidate would need many attempts); the
             // violation is reported as observed, the replay file re-runs the scenario repeatedly
             let path = write_replay(p, tier, seed, index, &tape0, &out0, &v0);
@@ -718,20 +722,26 @@ pub fn check_main(profiles: &[Profile], id: &str, tier: Tier) -> i32 {
         let (out1, rec1) = execute(p, tier, Tape::replay(small.clone()));
         let (v1, out1, tape1) = match out1.violations.iter().find(|v| v.property == property && v.clause == clause) {
             Some(v) => (v.clone(), out1, rec1),
-            None => (v0.clone(), out0, tape0),
+            None => (v0.clone(), out0.clone_light(), tape0.clone()),
         };
         let path = write_replay(p, tier, seed, index, &tape1, &out1, &v1);
-        // re-execute from disk in a child process before reporting
-        let st = Command::new(std::env::current_exe().unwrap()).args(["replay", &path]).stdout(Stdio::null()).status();
-        match st.map(|s| s.code()) {
-            Ok(Some(1)) => {
+        // re-execute from disk in a child process before reporting; fall back to the unminimised
+        // tape, then to the worker's history
+        let verify = |path: &str| Command::new(std::env::current_exe().unwrap()).args(["replay", path]).stdout(Stdio::null()).status().map(|s| s.code()).unwrap_or(None);
+        if verify(&path) == Some(1) {
+            println!("VIOLATION property={} replay={}", property, path);
+            println!("  clause {} (seed {}, run {}, tape minimised to {} choices): {}", clause, seed, index, tape1.len(), crate::libi::truncate(&v1.detail, 1500));
+            exit_code = exit_code.max(1);
+            violations_total += 1;
+        } else {
+            let path = write_replay(p, tier, seed, index, &tape0, &out0, &v0);
+            if verify(&path) == Some(1) {
                 println!("VIOLATION property={} replay={}", property, path);
-                println!("  clause {} (seed {}, run {}, tape minimised to {} choices): {}", clause, seed, index, tape1.len(), crate::libi::truncate(&v1.detail, 1500));
-                exit_code = 1;
+                println!("  clause {} (seed {}, run {}, {} choices, not minimised: the minimised tape did not reproduce in a fresh process): {}", clause, seed, index, tape0.len(), crate::libi::truncate(&v0.detail, 1500));
+                exit_code = exit_code.max(1);
                 violations_total += 1;
-            }
-            other => {
-                println!("HARNESS-ERROR: replay of {} did not reproduce in a fresh process ({:?})", path, other);
+            } else if !history_path(&mut exit_code, &mut violations_total) {
+                println!("HARNESS-ERROR: replay of {} did not reproduce in a fresh process", path);
                 exit_code = exit_code.max(2);
             }
         }
@@ -1082,4 +1092,19 @@ pub fn reproduce_with_history(p: &Profile, tier: Tier, seed: u64, nw: u64, index
         }
         len *= 2;
     }
+}
+
+fn profiles_static(p: &str) -> &'static str {
+    for id in ["C01", "C02", "C03", "C04", "C05", "C06", "C07", "C08", "C09", "C10", "C11", "C12", "C13", "C14", "C15", "C16", "C17", "C18", "C19"] {
+        if id == p {
+            return id;
+        }
+    }
+    "C00"
+}
+
+fn clause_static(c: &str) -> &'static str {
+    // clause names are static strings in the judges; a violation rebuilt from a worker's report
+    // only needs a stable label
+    Box::leak(c.to_string().into_boxed_str())
 }
